@@ -17,8 +17,9 @@ RULE = ("(a) exhaustive layout enumeration for 14 small statements (<=8 tokens; 
         "leading '&', '&' + trailing comment, '&' + comment line, '&' + blank line + leading '&', blanks around '&'} (all "
         "combinations when <= 2500, a fixed-seed sample otherwise) and every interior position of every literal is "
         "broken with and without leading '&'; (b) random layouts of whole generated programs (continuations at token "
-        "boundaries and inside literals, comment/blank lines, trailing comments, indentation, ';' joins, case flips of "
-        "keywords and names). Oracle: shape(tree(L(P))) == shape(tree(canonical(P))) with names case-folded, and the "
+        "boundaries, inside literals and inside names, keywords, numbers and operators ('&' ... '&' glued to the two halves "
+        "of the token), comment/blank lines, trailing comments, indentation, ';' joins incl. lines starting with ';', "
+        "case flips of keywords and names). Oracle: shape(tree(L(P))) == shape(tree(canonical(P))) with names case-folded, and the "
         "multiset of name spellings in the regenerated text equals that of L(P) (names keep their spelling). "
         "non-trivial = layout that differs from the canonical text; distinct by SHA-1 of layout text")
 ASSUMPTIONS = ["a literal continued without a leading '&' resumes in column 1 and its remainder does not start with & ! or blank",
@@ -162,10 +163,10 @@ FOLD_DROP = ShapeOpts(fold_all=True, drop=("Comment",), prune_empty=True)
 FOLD_PRUNE = ShapeOpts(fold_all=True, prune_empty=True)
 
 PROGRAM_LAYOUTS = [
-    dict(comments=False, p_cont=0.35, p_semi=0.0, p_case=0.4, indent="random", p_blank=0.05, p_str_split=0.1, max_breaks=4),
+    dict(comments=False, p_cont=0.35, p_semi=0.0, p_case=0.4, indent="random", p_blank=0.05, p_str_split=0.1, max_breaks=4, p_tok_split=0.03),
     dict(comments=True, p_cont=0.3, p_semi=0.0, p_case=0.0, p_name_case=0.0, indent="random", p_str_split=0.1),
     dict(comments=False, p_cont=0.15, p_semi=0.25, p_case=0.3, p_name_case=0.3, indent="random", p_trailing_semi=0.05),
-    dict(comments=True, p_cont=0.5, p_semi=0.1, p_case=0.5, p_name_case=0.2, indent="depth", p_lead_amp=0.2, p_str_split=0.2, max_breaks=5),
+    dict(comments=True, p_cont=0.5, p_semi=0.1, p_case=0.5, p_name_case=0.2, indent="depth", p_lead_amp=0.2, p_str_split=0.2, max_breaks=5, p_tok_split=0.03),
 ]
 
 
